@@ -883,11 +883,11 @@ func connFacts(f *ast.File) {
 				for _, e := range ce.Args {
 					a = append(a, src(e))
 				}
-				calls = append(calls, strings.Join(a, " | "))
+				calls = append(calls, strList(a))
 			}
 			return true
 		})
-		fmt.Fprintf(&out, "def noticeDumpCalls : List String := %s\n", strList(calls))
+		fmt.Fprintf(&out, "def noticeDumpCalls : List (List String) := [%s]\n", strings.Join(calls, ", "))
 		fls := funcLits(fd.Body)
 		if len(fls) < 1 {
 			fail("startDumpFromBinlogPosition: reader goroutine not found")
